@@ -128,6 +128,7 @@ type vMonitor struct {
 	park        chan struct{} // when set, the end-of-run deactivation waits for it to be closed
 	parked      int32
 	deactivated int32
+	blockHook   func(*dataBlock) // when set: sees every block before it is processed (core-loop goroutine)
 }
 
 func (m *vMonitor) note(what string) {
@@ -195,6 +196,9 @@ func (m *vMonitor) setPark(c chan struct{}) {
 var vMonQuiet bool
 
 func (w *vMon) ProcessSegments(b *dataBlock) error {
+	if w.mon.blockHook != nil {
+		w.mon.blockHook(b)
+	}
 	if vMonQuiet {
 		if w.mon.slow > 0 {
 			time.Sleep(w.mon.slow)
